@@ -23,6 +23,7 @@ MC = {
     "quick": [
         _mc("ok", [103], 0, 4, [2, 3], [11, 32]),          # 1-D 0..3, n <= 4
         _mc("ok", [201], 0, 3, [2, 3], [11, 32]),           # 2-D 2x2, three metrics
+        _mc("ok", [999], 0, 0, [4], [52]),                  # the 13-point hub figure (core point with no free neighbour)
     ],
     "thorough": [
         _mc("ok", [104], 0, 4, [2, 3], [11, 32, 21]),
@@ -31,6 +32,7 @@ MC = {
         _mc("ok", [202], 0, 3, [2, 3], [11, 32, 21]),
         _mc("ok", [0], 0, 4, [2, 3], [11]),
         _mc("ok", [103], 0, 4, [2, 3], [0]),                # infinite tolerance
+        _mc("ok", [999], 0, 0, [4], [52, 94]),              # the 13-point hub figure (min_points 3 merges everything: 2.5M states)
     ],
 }
 # broken designs that the invariants must reject (TLC exit code 12 = invariant violated)
@@ -38,6 +40,7 @@ NEG = [
     ("noncore_extends", _mc("noncore_extends", [103], 5, 5, [4], [32])),
     ("start_in_seeds", _mc("start_in_seeds", [103], 3, 3, [3], [21])),
     ("count_excl_self", _mc("count_excl_self", [103], 2, 2, [2], [21])),
+    ("seed_needs_free_neighbour", _mc("seed_needs_free_neighbour", [999], 0, 0, [4], [52])),
 ]
 INVS = ["InvDbscanDone", "InvOpticsDone", "InvGrow", "InvLabels", "InvSeeds", "InvTight", "InvKth", "InvSym", "InvCache"]
 ACTIONS = ["DSkip", "DSeed", "DPop", "DClose", "OSkip", "OStart", "OPop", "OEnd", "Done"]
@@ -45,22 +48,23 @@ ACTIONS = ["DSkip", "DSeed", "DPop", "DClose", "OSkip", "OStart", "OPop", "OEnd"
 # (B) generator domains
 GEN = {
     "quick": [
-        dict(Lattices="{0}", MinPts=0, MaxPts=4, MinPtsSet="{2, 3}", EpsSet="{11}", Specials=1),
-        dict(Lattices="{104}", MinPts=0, MaxPts=4, MinPtsSet="{2, 3}", EpsSet="{12, 11, 32, 21, 52, 0}", Specials=0),
-        dict(Lattices="{202}", MinPts=0, MaxPts=3, MinPtsSet="{2, 3}", EpsSet="{11, 32, 21, 0}", Specials=0),
-        dict(Lattices="{103}", MinPts=5, MaxPts=5, MinPtsSet="{4}", EpsSet="{32}", Specials=0),
+        dict(Lattices="{0}", MinPts=0, MaxPts=4, MinPtsSet="{2, 3}", EpsSet="{11}", Specials=1, Hubs=1),
+        dict(Lattices="{104}", MinPts=0, MaxPts=4, MinPtsSet="{2, 3}", EpsSet="{12, 11, 32, 21, 52, 0}", Specials=0, Hubs=0),
+        dict(Lattices="{202}", MinPts=0, MaxPts=3, MinPtsSet="{2, 3}", EpsSet="{11, 32, 21, 0}", Specials=0, Hubs=0),
+        dict(Lattices="{103}", MinPts=5, MaxPts=5, MinPtsSet="{4}", EpsSet="{32}", Specials=0, Hubs=0),
     ],
     "thorough": [
-        dict(Lattices="{0}", MinPts=0, MaxPts=5, MinPtsSet="{2, 3, 4}", EpsSet="{11, 12}", Specials=1),
-        dict(Lattices="{105}", MinPts=0, MaxPts=4, MinPtsSet="{2, 3, 4}", EpsSet="{12, 11, 32, 21, 52, 31, 0}", Specials=0),
-        dict(Lattices="{104}", MinPts=5, MaxPts=5, MinPtsSet="{2, 3, 4}", EpsSet="{32, 21}", Specials=0),
-        dict(Lattices="{202}", MinPts=0, MaxPts=3, MinPtsSet="{2, 3, 4}", EpsSet="{12, 11, 32, 21, 52, 94, 0}", Specials=0),
-        dict(Lattices="{202}", MinPts=4, MaxPts=4, MinPtsSet="{3}", EpsSet="{32}", Specials=0),
-        dict(Lattices="{301}", MinPts=0, MaxPts=3, MinPtsSet="{2, 3}", EpsSet="{11, 32, 21}", Specials=0),
+        dict(Lattices="{0}", MinPts=0, MaxPts=5, MinPtsSet="{2, 3, 4}", EpsSet="{11, 12}", Specials=1, Hubs=2),
+        dict(Lattices="{105}", MinPts=0, MaxPts=4, MinPtsSet="{2, 3, 4}", EpsSet="{12, 11, 32, 21, 52, 31, 0}", Specials=0, Hubs=0),
+        dict(Lattices="{104}", MinPts=5, MaxPts=5, MinPtsSet="{2, 3, 4}", EpsSet="{32, 21}", Specials=0, Hubs=0),
+        dict(Lattices="{202}", MinPts=0, MaxPts=3, MinPtsSet="{2, 3, 4}", EpsSet="{12, 11, 32, 21, 52, 94, 0}", Specials=0, Hubs=0),
+        dict(Lattices="{202}", MinPts=4, MaxPts=4, MinPtsSet="{3}", EpsSet="{32}", Specials=0, Hubs=0),
+        dict(Lattices="{301}", MinPts=0, MaxPts=3, MinPtsSet="{2, 3}", EpsSet="{11, 32, 21}", Specials=0, Hubs=0),
     ],
 }
 QUICK_CAP = 6000        # quick tier: all cases with n <= 2 + seeded sample of the rest up to this many
 RANDOM = {"quick": 100, "thorough": 1500}
+RANDOM_HUBS = {"quick": 40, "thorough": 600}
 TRACE_CONST = dict(Variant='"ok"', Lattices="{}", MinPts=0, MaxPts=0, MinPtsSet="{}", EpsSet="{}")
 INDEXES = ["linear", "kdtree", "balltree"]
 
@@ -122,6 +126,62 @@ def _shape(r, dim, n):
         for p in pts:
             p[d] -= m
     return pts
+
+
+def hub_case(r):
+    """Random embedding of the hub figure of Gen_Density (a core point whose neighbours are all border points of
+    other clusters) in 2 or 3 dimensions: random number of arms, arm shapes, axis permutation / reflections, scale,
+    translation, point order (hub mostly late), a few far-away noise points."""
+    dim = r.choice([2, 2, 3])
+    metric = r.choice(["l1", "l2", "linf"])
+    c = r.choice([1, 1, 2, 3])
+    if metric == "linf":
+        dirs = [[sx if k == 0 else (sy if k == 1 else sz) for k in range(dim)]
+                for sx in (1, -1) for sy in (1, -1) for sz in ((1, -1) if dim == 3 else (1,))]
+    else:
+        dirs = [[(sg if k == a else 0) for k in range(dim)] for a in range(dim) for sg in (1, -1)]
+    r.shuffle(dirs)
+    k = r.randint(2, min(len(dirs), 6))
+    mp = r.choice([k + 1, k + 1, k + 1, k, k + 2])
+    arms = []
+    for u in dirs[:k]:
+        a1 = [4 * x for x in u]
+        ext = [[6 * x for x in u]]
+        if metric == "linf":
+            for j in range(dim):
+                e = list(a1); e[j] += 2 * u[j]; ext.append(e)
+        else:
+            for j in range(dim):
+                if u[j] == 0:
+                    for sg in (1, -1):
+                        e = list(a1); e[j] += 2 * sg; ext.append(e)
+        r.shuffle(ext)
+        m = r.randint(min(len(ext), max(2, mp - 2)), len(ext)) if r.random() < 0.85 else r.randint(0, len(ext))
+        arm = [a1] + ext[:m] + [[2 * x for x in u]]
+        if r.random() < 0.5:
+            arm.reverse()
+        arms.append(arm)
+    hub = [0] * dim
+    u = r.random()
+    blocks = [a for a in arms]
+    pos = len(blocks) if u < 0.6 else r.randint(0, len(blocks))
+    blocks.insert(pos, [hub])
+    pts = [p for b in blocks for p in b]
+    if r.random() < 0.25:
+        r.shuffle(pts)
+    for _ in range(r.randint(0, 3)):
+        pts.insert(r.randint(0, len(pts)), [r.choice([-14, 14, 17]) for _ in range(dim)])
+    pts = [[c * x for x in p] for p in pts]
+    for d in range(dim):
+        m = min(p[d] for p in pts)
+        for p in pts:
+            p[d] -= m
+    en, ed = r.choice([(5 * c, 2), (5 * c, 2), (9 * c, 4)])
+    h = r.randrange(1 << 20)
+    return {"kind": "hub",
+            "inp": {"dim": dim, "pts": pts, "minpts": mp, "eps": {"n": en, "d": ed}, "metric": metric,
+                    "ft": "f32" if h % 4 == 3 else "f64", "leaf": [0, 1, 2, 3, 0, 5][h % 6],
+                    "dsindex": INDEXES[(h // 3) % 3]}}
 
 
 def random_cases(ctx, count):
@@ -188,6 +248,19 @@ def classify(trace):
             tags.add("border")
         if any(o["reach"]["def"] and o["core"]["def"] for o in orders[0]) and any(not o["core"]["def"] for o in orders[0]):
             tags.add("optics_mixed")
+    if trace.get("kind") == "hub" and orders and labs:
+        # a core point all of whose neighbours are non-core (border points of other clusters): it must found its
+        # own cluster although nothing is left to grow it from (evidence counter only, strict convention)
+        core = {o["idx"] for o in orders[0] if o["core"]["def"]}
+        def near(i, j):
+            d = _dist(metric, pts[i], pts[j])
+            return (ed * ed * d < en * en) if metric == "l2" else (ed * d < en)
+        for i in core:
+            nbs = [j for j in range(n) if j != i and near(i, j)]
+            if nbs and all(j not in core for j in nbs):
+                tags.add("isolated_core_hub")
+                if any(lab[j] != lab[i] for j in nbs):
+                    tags.add("hub_neighbours_claimed_by_other_clusters")
     if len({tuple(p) for p in pts}) < n:
         tags.add("duplicates")
     return tags
@@ -224,15 +297,16 @@ def run(ctx):
     generated = len(cases)
     ctx.exhaustive = True
     if ctx.quick and len(cases) > QUICK_CAP:
-        # always kept: n <= 2, zero features, the hand-picked 3-4-5 inputs, and the n = 5 / min_points = 4 domain (the smallest inputs in which a
+        # always kept: n <= 2, zero features, the hand-picked 3-4-5 inputs, the hub family, and the n = 5 / min_points = 4 domain (the smallest inputs in which a
         # border point has a neighbour that no core point reaches)
-        keep = lambda c: len(c["inp"]["pts"]) <= 2 or c["inp"]["dim"] == 0 or len(c["inp"]["pts"]) >= 5 or c["kind"] == "special"
+        keep = lambda c: len(c["inp"]["pts"]) <= 2 or c["inp"]["dim"] == 0 or len(c["inp"]["pts"]) >= 5 or c["kind"] in ("special", "hub")
         small = [c for c in cases if keep(c)]
         rest = [c for c in cases if not keep(c)]
         ctx.rng.shuffle(rest)
         cases = small + rest[:max(0, QUICK_CAP - len(small))]
         ctx.exhaustive = False
     cases += random_cases(ctx, RANDOM[ctx.tier])
+    cases += [hub_case(ctx.rng) for _ in range(RANDOM_HUBS[ctx.tier])]
     vlib.number(cases)
     ctx.cases = len(cases)
     ctx.extra["cases_enumerated_by_tlc"] = generated
@@ -251,7 +325,8 @@ def run(ctx):
             nontriv.add(json.dumps(t["inp"], sort_keys=True))
     ctx.nontrivial = len(nontriv)
     ctx.extra["accepted_case_features"] = feats
-    for need in ["border", "on_radius", "multi_cluster", "noise_and_cluster", "duplicates", "optics_mixed", "default_params_form"]:
+    for need in ["border", "on_radius", "multi_cluster", "noise_and_cluster", "duplicates", "optics_mixed", "default_params_form",
+                 "hub_neighbours_claimed_by_other_clusters"]:
         if feats.get(need, 0) == 0 and not rejected:
             raise vlib.ToolError("vacuity: no accepted case with feature %s" % need)
     vlib.sample(ctx, [t for t in traces if "border" in classify(t) and len(t["inp"]["pts"]) <= 5][:2]
